@@ -402,10 +402,20 @@ class API:
                 These are needed to look up messages in imported protos.
                 Primarily used for testing.
         """
+        def in_package(proto_package: str) -> bool:
+            # The package itself or one of its sub-packages; a package that
+            # merely shares the prefix as text (`foo.v1beta1` for `foo.v1`)
+            # is a dependency.
+            return (
+                not package
+                or proto_package == package
+                or proto_package.startswith(package + ".")
+            )
+
         # Save information about the overall naming for this API.
         naming = api_naming.Naming.build(
             *filter(
-                lambda fd: fd.package.startswith(package),
+                lambda fd: in_package(fd.package),
                 file_descriptors,
             ),
             opts=opts,
@@ -458,7 +468,7 @@ class API:
             fd.name = disambiguate_keyword_sanitize_fname(fd.name, pre_protos)
             pre_protos[fd.name] = Proto.build(
                 file_descriptor=fd,
-                file_to_generate=fd.package.startswith(package),
+                file_to_generate=in_package(fd.package),
                 naming=naming,
                 opts=opts,
                 prior_protos=pre_protos,
